@@ -454,7 +454,36 @@ func expSweep(bits uint, blk, nblk int, thorough bool) []uint {
 	return out
 }
 
+// decimalSpelling spells f as a decimal literal in one of the forms LLVM's lexer
+// takes ([-+]?[0-9]+[.][0-9]*([eE][-+]?[0-9]+)?): the exponent marker in either
+// case, its sign left out, zeros in front of the exponent digits or behind the
+// mantissa, a plus sign in front.
 func decimalSpelling(f float64, rng *rand.Rand) string {
+	s := decimalSpelling0(f, rng)
+	switch rng.Intn(8) {
+	case 0:
+		s = strings.Replace(s, "e", "E", 1)
+	case 1:
+		s = strings.Replace(s, "e+", "e", 1)
+	case 2:
+		if i := strings.IndexAny(s, "eE"); i >= 0 && i+2 <= len(s) {
+			s = s[:i+2] + "00" + s[i+2:]
+		}
+	case 3:
+		if i := strings.IndexAny(s, "eE"); i >= 0 {
+			s = s[:i] + "000" + strings.Replace(s[i:], "e", "E", 1)
+		} else {
+			s += "000"
+		}
+	case 4:
+		if !strings.HasPrefix(s, "-") {
+			s = "+" + s
+		}
+	}
+	return s
+}
+
+func decimalSpelling0(f float64, rng *rand.Rand) string {
 	switch rng.Intn(3) {
 	case 0:
 		s := strconv.FormatFloat(f, 'e', -1, 64)
